@@ -360,6 +360,21 @@ func (ssc *StatefulSetController) adoptOrphanRevisions(set *apps.StatefulSet) er
 		}
 	}
 	if len(orphans) > 0 {
+		// a set that is being deleted adopts nothing (same rule as for pods)
+		if set.DeletionTimestamp != nil {
+			return nil
+		}
+		// recheck with an uncached read before touching the orphans at all
+		fresh, err := ssc.pcClient.AppsV1().StatefulSets(set.Namespace).Get(context.TODO(), set.Name, metav1.GetOptions{})
+		if err != nil {
+			return err
+		}
+		if fresh.UID != set.UID {
+			return fmt.Errorf("original StatefulSet %v/%v is gone: got uid %v, wanted %v", set.Namespace, set.Name, fresh.UID, set.UID)
+		}
+		if fresh.DeletionTimestamp != nil {
+			return fmt.Errorf("%v/%v has just been deleted at %v", fresh.Namespace, fresh.Name, fresh.DeletionTimestamp)
+		}
 		revisions = orphans
 		for i := range revisions {
 			if shouldSyncLabels(revisions[i]) {
@@ -368,13 +383,6 @@ func (ssc *StatefulSetController) adoptOrphanRevisions(set *apps.StatefulSet) er
 					return err
 				}
 			}
-		}
-		fresh, err := ssc.pcClient.AppsV1().StatefulSets(set.Namespace).Get(context.TODO(), set.Name, metav1.GetOptions{})
-		if err != nil {
-			return err
-		}
-		if fresh.UID != set.UID {
-			return fmt.Errorf("original StatefulSet %v/%v is gone: got uid %v, wanted %v", set.Namespace, set.Name, fresh.UID, set.UID)
 		}
 		return ssc.control.AdoptOrphanRevisions(set, revisions)
 	}
